@@ -203,7 +203,8 @@ public:
     for (auto *P : FD->parameters()) {
       QualType T = P->getType();
       std::string k = "val";
-      if (T->isReferenceType()) k = T.getNonReferenceType().isConstQualified() ? "cref" : "ref";
+      if (T->isRValueReferenceType()) k = "rref";
+      else if (T->isReferenceType()) k = T.getNonReferenceType().isConstQualified() ? "cref" : "ref";
       else if (T->isPointerType()) k = T->getPointeeType().isConstQualified() ? "cptr" : "ptr";
       pr.push_back(k);
     }
